@@ -27,6 +27,16 @@ var verifIOSMenuAll = []string{
 	"deny ip host 10.0.0.3 any log",
 }
 
+// second menu: four permit lines and two deny lines (long same-action runs)
+var verifIOSMenuB = []string{
+	"permit ip host 10.0.0.1 any",
+	"permit ip host 10.0.0.2 any",
+	"permit ip host 10.0.0.3 any",
+	"permit ip any any",
+	"deny ip host 10.0.0.1 any",
+	"deny ip any any",
+}
+
 // packet classes: source 10.0.0.1/2/3/other x {tcp/80, other protocol}
 const verifNClasses = 8
 
@@ -91,6 +101,9 @@ var verifStripLog = regexp.MustCompile(` log(-input)?`)
 
 func verifBuildIOSMenu(s *State, k int) *verifMenu {
 	lines := verifIOSMenuAll[:k]
+	if vf.Param("menu", "A") == "B" {
+		lines = verifIOSMenuB
+	}
 	text := "ip access-list extended MENU\n"
 	for _, l := range lines {
 		text += " " + l + "\n"
@@ -409,8 +422,12 @@ func VerifIOSACL(cmdInfo string) {
 	s.SetupParser(cmdInfo)
 	mn := verifBuildIOSMenu(s, K)
 
+	NB := N
+	if x := vf.Param("NB", ""); x != "" {
+		NB, _ = strconv.Atoi(x)
+	}
 	n := vf.Int("n", 0, N)
-	m := vf.Int("m", 1, N)
+	m := vf.Int("m", 1, NB)
 	vf.Assumption("the target ACL has at least one line (Netspoc does not generate empty ACLs)")
 	aLines := verifPickLines("a", n, mn)
 	bLines := verifPickLines("b", m, mn)
